@@ -407,7 +407,7 @@ Definition parse_with_missing_fixed {A} (missing : A) (parser : list Z -> option
 
 (* >>> the model follows /repo HEAD; after notes/C02.fix-1.diff is applied, change the right-hand side to
    @parse_with_missing_fixed A <<< *)
-Definition parse_with_missing_cur {A} := @parse_with_missing A.
+Definition parse_with_missing_cur {A} := @parse_with_missing_fixed A.
 
 (* strops._decimal_str_to_float / _scientific_str_to_float, as exact rationals *)
 Definition dec_to_rat (txt : list Z) : option (Z * Z) :=
@@ -454,7 +454,7 @@ Definition parse_split_fixed {A} (parser : list Z -> option A) (rows_sep : list 
   mapM (fun r => mapM parser (filter (fun s => negb (len s =? 0)) (split_on 44 (removelast r)))) rows_sep.
 
 (* >>> after notes/C02.fix-2.diff is applied, change the right-hand side to @parse_split_fixed A <<< *)
-Definition parse_split_cur {A} := @parse_split A.
+Definition parse_split_cur {A} := @parse_split_fixed A.
 
 (* a SequenceID column is moved into a fixed-width matrix; width 0 (every text empty) cannot be reshaped *)
 Definition sid_col (txts : list (list Z)) : colres :=
@@ -496,7 +496,7 @@ Definition key_mask (flat : list Z) (key : list Z) (it : Z * Z) : bool :=
 Definition all_ignored (flat : list Z) (key : list Z) (tab : list (list (Z * Z))) : bool :=
   forallb (fun it => len flat <=? fst it + len key + 1) (concat tab).
 (* >>> after notes/C02.fix-3.diff is applied, change to false <<< *)
-Definition short_buffer_raises : bool := true.
+Definition short_buffer_raises : bool := false.
 Definition info_texts (keep_sep : bool) (flat key : list Z) (tab : list (list (Z * Z))) : option (list (list Z)) :=
   if short_buffer_raises && all_ignored flat key tab then None
   else if existsb (fun row => 1 <? len (filter (key_mask flat key) row)) tab then None   (* key twice in a row *)
